@@ -1,0 +1,37 @@
+//! Verification hooks (feature `verif-hooks`, off by default).
+//!
+//! Read-only accessors and thin wrappers around crate-private allocator
+//! internals so that an external harness can drive them. Nothing in here is
+//! compiled unless the feature is enabled, and nothing changes behaviour.
+
+pub use super::pool::verif::*;
+use super::{Arena, bump};
+
+fn target(arena: &Arena) -> &bump::Arena {
+    #[cfg(debug_assertions)]
+    {
+        arena.delegate_target_unchecked()
+    }
+    #[cfg(not(debug_assertions))]
+    {
+        arena
+    }
+}
+
+/// Committed bytes of the arena's reservation.
+#[must_use]
+pub fn arena_commit(arena: &Arena) -> usize {
+    target(arena).verif_commit()
+}
+
+/// Reserved capacity of the arena.
+#[must_use]
+pub fn arena_capacity(arena: &Arena) -> usize {
+    target(arena).verif_capacity()
+}
+
+/// Base address of the arena's reservation.
+#[must_use]
+pub fn arena_base(arena: &Arena) -> *const u8 {
+    target(arena).verif_base()
+}
